@@ -6,6 +6,8 @@ props = [json.loads(l) for l in open(os.path.join(V, "properties.jsonl"))]
 
 PROOF = "Lean 4 proof over executable model + differential correspondence"
 CLAIMS = {
+ "C10": dict(text="Lean theorems accept_iff, accept_legacy_iff, failover_order (attempts_le/stop/ge), attach_only_if_genuine, never_silently_omitted, all_fail_is_error, countersig_binds, moved_countersig_rejected, validity_time, expired_leaf, cache_hit/miss/failure, no_panic_with_guards (26 theorems) over the model of pkcs9 request/response checks, tsclient failover, the cache wrapper and VerifyChain; tied by differential execution of relic's real timestamp client against a scripted fake TSA (every behaviour, permutations of <= 3 URLs, RFC 3161 and legacy) and of the verification side over validity-window matrices.",
+             note="Trusted: Lean kernel; chainOK, token signature checks and digests are abstract parameters; vsix/cosign attach sites, named URL pools and the rate limiter are not modelled.", tech="Lean 4 proof over executable model + differential correspondence"),
  "C12": dict(text="Lean theorems add_spec, dump_load_apply, load_dump, load_prefix_rejected, inplace_eq_rewrite, apply_exact, sort_instability_irrelevant over the model of lib/binpatch, for all files, all constructible Add sequences and all thresholds; model tied to the Go code by exhaustive small-scope + random differential execution on every run.",
              note="Trusted: Lean kernel; hand-written model validated only by the correspondence run; POSIX pwrite/ftruncate/rename semantics; sort.Sort returns a sorted permutation.", tech=PROOF),
  "C20": dict(text="Lean theorems status_counts_trailing_failures, healthy_iff, one_success_restores, loop_exits_on_close, loop_break_spins (+13 more) over the model of server/view_health.go for all histories and thresholds; the loop skeleton and the comparisons of Healthy are regenerated from source by a go/ast extractor on every run and the obligations discharged by decide; counter model tied by differential execution through GET /health.",
